@@ -250,6 +250,9 @@ impl Reader {
                     .ok_or(format::Error::TickOverflow)?
                     .checked_add(dt)
                     .ok_or(format::Error::TickOverflow)?;
+                // An explicit tick skip cancels the implicit tick increment of
+                // the next player record (see doc/teehistorian.md).
+                self.prev_player_cid = None;
                 if self.in_tick {
                     self.in_tick = false;
                     Item::TickEnd(old_tick)
